@@ -1,0 +1,47 @@
+//go:build verif
+
+package scipipe
+
+// Exported aliases of unexported helpers, for the verification harness only.
+
+// VerifApplyPathModifiers exposes applyPathModifiers
+func VerifApplyPathModifiers(path string, modifiers []string) string {
+	return applyPathModifiers(path, modifiers)
+}
+
+// VerifSplitAllPaths exposes splitAllPaths
+func VerifSplitAllPaths(path string) []string { return splitAllPaths(path) }
+
+// VerifSanitizePathFragment exposes sanitizePathFragment
+func VerifSanitizePathFragment(s string) string { return sanitizePathFragment(s) }
+
+// VerifReplaceParentDirsWithPlaceholder exposes replaceParentDirsWithPlaceholder
+func VerifReplaceParentDirsWithPlaceholder(s string) string {
+	return replaceParentDirsWithPlaceholder(s)
+}
+
+// VerifReplacePlaceholdersWithParentDirs exposes replacePlaceholdersWithParentDirs
+func VerifReplacePlaceholdersWithParentDirs(s string) string {
+	return replacePlaceholdersWithParentDirs(s)
+}
+
+// VerifPathIsValid exposes pathIsValid
+func VerifPathIsValid(path string) bool {
+	ok, err := pathIsValid(path)
+	return ok && err == nil
+}
+
+// VerifUpstreamProcNames exposes upstreamProcsForProc (names only)
+func VerifUpstreamProcNames(proc WorkflowProcess) []string {
+	names := []string{}
+	for name := range upstreamProcsForProc(proc) {
+		names = append(names, name)
+	}
+	return names
+}
+
+// VerifSetDoStream marks an IP as streaming
+func VerifSetDoStream(ip *FileIP, doStream bool) { ip.doStream = doStream }
+
+// VerifPoint exposes the hook point function to harness components
+func VerifPoint(name string, keys ...string) { verifPoint(name, keys...) }
